@@ -106,8 +106,9 @@ impl Form {
         match self {
             Form::TupleLet => 3,
             Form::NestedTupleLet => 4,
-            // shape 1: the quoted block starts with an expression statement, the binder follows
-            Form::Let => 2,
+            // shape bit 0: the quoted block starts with an expression statement, the binder follows;
+            // shape bit 1: the binder sits in a block whose value is a lambda (applied at once)
+            Form::Let => 4,
             _ => 1,
         }
     }
@@ -360,7 +361,16 @@ fn down_body(form: Form, shape: usize, pos: Pos, j: usize, b: &str, k: Ks) -> (S
     let e = "$zq_e";
     let pos = if pos == Pos::Unrelated { Pos::Body } else { pos };
     // an expression statement before the binder: the block's first node is not the `let`
-    let lead = if form == Form::Let && shape % 2 == 1 { "zq_nop()\n     " } else { "" };
+    let lead = if form == Form::Let && shape & 1 == 1 { "zq_nop()\n     " } else { "" };
+    if form == Form::Let && shape & 2 != 0 {
+        // the same body inside a block that yields a function: `({ <binder> |z| <expr> + z })(0.0)`
+        let (txt, lin) = down_body(form, shape & 1, pos, j, b, k);
+        let (stmts, last) = match txt.rfind("\n     ") {
+            Some(i) => (txt[..i].to_string(), txt[i + 6..].to_string()),
+            None => (String::new(), txt.clone()),
+        };
+        return (format!("({{ {stmts}\n     |zq_l{j}| {last} + zq_l{j} }})(0.0)"), lin);
+    }
     match form {
         Form::Let | Form::TupleLet | Form::NestedTupleLet | Form::LetOverNested => match pos {
             Pos::Body => {
@@ -756,7 +766,7 @@ fn build_down(spec: &DownSpec, rng: &mut Rng) -> HCase {
     }
     let main = wrap_site(spec.site, &local, &expr);
     let head = if spec.form == Form::Match { "type ZqOpt = ZqSom(float) | ZqNon\n" } else { "" };
-    let nop = if spec.form == Form::Let && spec.shape % 2 == 1 { "#stage(main)\nfn zq_nop(){\n  let zq_u = 0.0\n}\n" } else { "" };
+    let nop = if spec.form == Form::Let && spec.shape & 1 == 1 { "#stage(main)\nfn zq_nop(){\n  let zq_u = 0.0\n}\n" } else { "" };
     let mk = |d: &str| format!("{head}{nop}#stage(macro)\n{d}#stage(main)\n{globals}{main}");
     HCase {
         colliding: mk(&defs[0]),
